@@ -129,3 +129,53 @@ def plain(a):
                                           subok=False),
                                  mask=np.ma.getmaskarray(a).copy())
     return np.array(a, copy=True, subok=False)
+
+
+def disk_ok(fs):
+    """can the FileSpec be written as classic-model netCDF and read back
+    unchanged: an unlimited dimension is used and leads every variable that
+    has it; no unmasked-or-masked data cell equals the declared fill (such a
+    cell reads back masked); no character variables needed here"""
+    for n, l, u in fs['dims']:
+        if u:
+            if not any(n in v['dims'] for v in fs['vars']):
+                return False
+            for v in fs['vars']:
+                if n in v['dims'] and v['dims'][0] != n:
+                    return False
+    for v in fs['vars']:
+        if v.get('fill') is not None and v['dtype'] != 'S1':
+            if any(x == v['fill'] for x in v['data']):
+                return False
+    return True
+
+
+def reopen(f):
+    """save an in-memory file as NETCDF4_CLASSIC in the worker's scratch
+    directory and reopen it with the netcdf class (variables are then
+    netCDF4.Variable objects).  R8b: the writer is closed, dropped and
+    collected before the reader opens.  Caller: close_disk(g) when done."""
+    import gc
+    from . import libstate
+    from PseudoNetCDF import pncopen
+    path = libstate.scratch_path('.nc')
+    o = f.save(path, format='NETCDF4_CLASSIC', verbose=0)
+    o.close()
+    del o
+    gc.collect()
+    return pncopen(path, format='netcdf'), path
+
+
+def close_disk(g, path):
+    import gc
+    import os
+    try:
+        g.close()
+    except Exception:
+        pass
+    del g
+    gc.collect()
+    try:
+        os.remove(path)
+    except OSError:
+        pass
